@@ -22,6 +22,34 @@ theorem mkNamed_length (l : List (Nat × Nat × Bool)) : (mkNamed l).length = l.
   have := congrArg List.length (mkNamed_idx l)
   simpa using this
 
+/-! the same for `mkNamedR` (per entry the outcome of the `connect` call: pending / failed future / raises) -/
+
+theorem mkNamedR_idx (l : List (Nat × Nat × Nat)) : (mkNamedR l).map (·.idx) = List.range l.length := by
+  have h : (mkNamedR l).map (·.idx) = ((List.range l.length).zip l).map Prod.fst := by
+    simp only [mkNamedR, List.map_map]
+    apply List.map_congr_left
+    intro p _
+    rfl
+  rw [h, List.map_fst_zip]
+  simp
+
+theorem mkNamedR_nodup (l : List (Nat × Nat × Nat)) : ((mkNamedR l).map (·.idx)).Nodup := by
+  rw [mkNamedR_idx]; exact List.nodup_range
+
+theorem mkNamedR_length (l : List (Nat × Nat × Nat)) : (mkNamedR l).length = l.length := by
+  have := congrArg List.length (mkNamedR_idx l)
+  simpa using this
+
+/-- `mkNamed` is the raise-free special case -/
+theorem mkNamed_eq_mkNamedR (l : List (Nat × Nat × Bool)) :
+    mkNamed l = mkNamedR (l.map (fun p => (p.1, p.2.1, if p.2.2 then 1 else 0))) := by
+  simp only [mkNamed, mkNamedR, List.length_map]
+  rw [List.zip_map_right, List.map_map]
+  apply List.map_congr_left
+  intro p _
+  obtain ⟨i, f, n, b⟩ := p
+  cases b <;> rfl
+
 theorem find_idx (addrs : List Addr) (hnd : (addrs.map (·.idx)).Nodup) (a : Addr) (ha : a ∈ addrs) :
     addrs.find? (fun b => b.idx == a.idx) = some a := by
   induction addrs with
